@@ -182,8 +182,12 @@ func (r *runner) validate(label string) {
 		for _, f := range r.st.Fracs() {
 			total += f.Docs
 		}
-		if int(total) != len(visible.Docs) {
-			r.violate("doc_count", "%s: fractions report %d documents, %d distinct documents are stored (%v)", label, total, len(visible.Docs), r.st.Fracs())
+		rows := 0 // the fraction counts rows: a document plus one per nested element
+		for _, d := range visible.Docs {
+			rows += 1 + len(d.Nested)
+		}
+		if int(total) != rows {
+			r.violate("doc_count", "%s: fractions report %d documents, %d distinct documents (%d rows) are stored (%v)", label, total, len(visible.Docs), rows, r.st.Fracs())
 		}
 	}
 	r.logf("validate %s ok: %d docs, %d queries", label, len(visible.Docs), len(battery))
@@ -198,6 +202,14 @@ func tokenBattery(c *model.Corpus) []*Search {
 			if !seen[t] {
 				seen[t] = true
 				toks = append(toks, t)
+			}
+		}
+		for _, n := range d.Nested {
+			for _, t := range n {
+				if !seen[t] {
+					seen[t] = true
+					toks = append(toks, t)
+				}
 			}
 		}
 	}
@@ -276,6 +288,13 @@ func (r *runner) compareSearch(label string, s *Search, corpus *model.Corpus) bo
 		}
 	}
 	if r.c.Oracles.IDsOnly {
+		return true
+	}
+	// counts are taken per row (meta); they are only defined in terms of documents when every
+	// matching document matched through exactly one row (always true without nested elements)
+	want, rowsAreDocs := model.Rows(s.Q, want)
+	if !rowsAreDocs {
+		r.s.Probe("nested_counts_skipped")
 		return true
 	}
 	if s.WithTotal && res.Total != uint64(len(want)) {
